@@ -58,5 +58,40 @@ Theorem C05_backends_agree_sync : forall eps mt m iv a b ts te, vtrain ts te a -
 Proof. exact sync_backends_agree. Qed.
 Print Assumptions C05_backends_agree_sync.
 
+From PS Require Lem_MultiAPI2.
+Import Lem_MultiAPI2.
+(* multivariate SPIKE distance = average of the multivariate SPIKE profile, whole recording and every sub-interval, both backends *)
+Theorem C05_multi_spike_is_profile_average : forall (eps : R) (cy : bool) (m : R) (ri : bool) (iv : option (R * R)) (l : list train) (ts te : R), (2 <= length l)%nat -> Forall (wtrain ts te) l -> iv_ok ts te iv -> exists P : pwl, spike_profile_multi ROps eps cy false m ri l None = Ok P /\ spike_distance_multi ROps eps cy false m ri iv l None = pwl_avrg ROps P (iv_of iv).
+Proof. exact spike_multi_distance_is_profile_average. Qed.
+Print Assumptions C05_multi_spike_is_profile_average.
+(* multivariate SPIKE-Sync = summed values / summed multiplicities of the multivariate profile's events strictly inside the interval (1 if none) *)
+Theorem C05_multi_sync_is_profile_ratio : forall (eps : R) (cy : bool) (mt m : R) (iv : option (R * R)) (l : list train) (ts te : R), (2 <= length l)%nat -> Forall (wtrain ts te) l -> iv_ok ts te iv -> exists P : list dentry, spike_sync_profile_multi ROps eps cy false mt m l None = Ok P /\ spike_sync_multi ROps eps cy false mt m iv l None = rmap (fun cm : R * R => if Reqb (snd cm) 0 then 1 else fst cm / snd cm) (df_integral ROps P (iv_of iv)).
+Proof. exact sync_multi_value_is_profile_ratio. Qed.
+Print Assumptions C05_multi_sync_is_profile_ratio.
+
 Example C05_nonvacuous : vtrain 0 1 ([1], 0, 1) /\ vtrain 0 1 ([], 0, 1) /\ vtrain 0 1 ([0; 1/2], 0, 1).
 Proof. unfold vtrain; cbn [tr_spikes tr_start tr_end fst snd]; repeat split; try lra; valid_tac. Qed.
+
+(* ---- executed instance (Q, extracted to OCaml and run against /repo) = the real-number functions
+   the theorems above are about: kernel-checked parametricity bridge (Bridge.v).  qL = map Q2R etc. ---- *)
+From Coq Require Import QArith Qreals.
+From PS Require Import Bridge.
+Local Close Scope Q_scope.
+Theorem C05_exec_isi_distance_bi_transfer : forall (eps : Q) (cy rc : bool) (m : Q) (iv : option (Q * Q)) (a b : train), rmap Q2R (isi_distance_bi QOps eps cy rc m iv a b) = isi_distance_bi ROps (Q2R eps) cy rc (Q2R m) (qIv iv) (qTrain a) (qTrain b).
+Proof. exact isi_distance_bi_transfer. Qed.
+Print Assumptions C05_exec_isi_distance_bi_transfer.
+Theorem C05_exec_spike_distance_bi_transfer : forall (eps : Q) (cy rc : bool) (m : Q) (ri : bool) (iv : option (Q * Q)) (a b : train), rmap Q2R (spike_distance_bi QOps eps cy rc m ri iv a b) = spike_distance_bi ROps (Q2R eps) cy rc (Q2R m) ri (qIv iv) (qTrain a) (qTrain b).
+Proof. exact spike_distance_bi_transfer. Qed.
+Print Assumptions C05_exec_spike_distance_bi_transfer.
+Theorem C05_exec_spike_sync_bi_transfer : forall (eps : Q) (cy rc : bool) (mt m : Q) (iv : option (Q * Q)) (a b : train), rmap Q2R (spike_sync_bi QOps eps cy rc mt m iv a b) = spike_sync_bi ROps (Q2R eps) cy rc (Q2R mt) (Q2R m) (qIv iv) (qTrain a) (qTrain b).
+Proof. exact spike_sync_bi_transfer. Qed.
+Print Assumptions C05_exec_spike_sync_bi_transfer.
+Theorem C05_exec_order_impl_transfer : forall (eps : Q) (cy : bool) (mt m : Q) (a b : train), rmap q2 (order_impl QOps eps cy mt m a b) = order_impl ROps (Q2R eps) cy (Q2R mt) (Q2R m) (qTrain a) (qTrain b).
+Proof. exact order_impl_transfer. Qed.
+Print Assumptions C05_exec_order_impl_transfer.
+Theorem C05_exec_isi_distance_cy_transfer : forall (s1 s2 : list Q) (ts te m : Q), Q2R (isi_distance_cy QOps s1 s2 ts te m) = isi_distance_cy ROps (qL s1) (qL s2) (Q2R ts) (Q2R te) (Q2R m).
+Proof. exact isi_distance_cy_transfer. Qed.
+Print Assumptions C05_exec_isi_distance_cy_transfer.
+Theorem C05_exec_spike_distance_cy_transfer : forall (t1 t2 : list Q) (ts te m : Q) (ri : bool), Q2R (spike_distance_cy QOps t1 t2 ts te m ri) = spike_distance_cy ROps (qL t1) (qL t2) (Q2R ts) (Q2R te) (Q2R m) ri.
+Proof. exact spike_distance_cy_transfer. Qed.
+Print Assumptions C05_exec_spike_distance_cy_transfer.
